@@ -557,6 +557,28 @@ def check_mirror(ctx):
         lst = first_index(nodes, lambda n: n.get("k") == "call" and any(a.get("k") == "lit" and a.get("v") == "wx:for" for a in n["args"]))
         item = [i for i in adds if mentions(nodes[i], "item_name")]
         index = [i for i in adds if mentions(nodes[i], "index_name")]
+        if not item and not index:
+            # `for (.., name) in [(.., item_name), (.., index_name)] { add_scope(name) }`: one call for both, in the order of the table
+            pm_p = sir.parent_map(f.body)
+            for i in adds:
+                cur = nodes[i]
+                while id(cur) in pm_p:
+                    cur = pm_p[id(cur)]
+                    if cur.get("k") == "for":
+                        src = sir.strip_ref(cur["e"])
+                        while src.get("k") == "mcall" and src["m"] in ("iter", "into_iter"):
+                            src = sir.strip_ref(src["recv"])
+                        if src.get("k") == "path" and len(src["segs"]) == 1:
+                            inits = [x["init"] for x in nodes if x.get("k") == "local" and x["pat"].get("name") == src["segs"][0] and x.get("init") is not None]
+                            src = sir.strip_ref(inits[0]) if len(inits) == 1 else src
+                        if src.get("k") == "array":
+                            elems = [sir.expr_str(x) for x in src["elems"]]
+                            it = [k_ for k_, t_ in enumerate(elems) if "item_name" in t_]
+                            ix = [k_ for k_, t_ in enumerate(elems) if "index_name" in t_]
+                            if it and ix and not item and not index:
+                                item = [i + 0.1 * it[0]]
+                                index = [i + 0.1 * ix[0]]
+                        break
         helper_names = set(g.name for g in sir.reach(tc, f) if g is not f)
 
         def prints_children(n):
@@ -564,7 +586,7 @@ def check_mirror(ctx):
                 return True
             # the child loop may live in a private helper that is handed the children
             return n.get("k") in ("call", "mcall") and (sir.call_name(n) or "").split("::")[-1] in helper_names and any(mentions(a, "children") for a in n["args"])
-        kids = first_index(nodes, prints_children, start=(index[0] if index else 0))
+        kids = first_index(nodes, prints_children, start=(int(index[0]) if index else 0))
         ok = None not in (save, trunc, lst, kids) and item and index and save < lst < item[0] < index[0] < kids < trunc
         obs.append(ob("C05.mirror/print/for-order", bool(ok), where, "save@%s < wx:for attr@%s < add_scope(item)@%s < add_scope(index)@%s < children@%s < truncate@%s" % (save, lst, item, index, kids, trunc)))
     sl = [f for f in tc.fns if f.name == "write_slot_and_slot_values" and f.body]
